@@ -225,9 +225,16 @@ func analyse(sc Scenario, out *outcome, drv *lib.Driver) *caseResult {
 		}
 		viol("synchronizer-panics-or-stops", out.panicMsg)
 	}
-	if out.hang != "" {
+	if strings.HasPrefix(out.hang, "livelock:") {
+		viol("node-keeps-reverting-and-storing-against-a-stable-source", out.hang)
+	} else if out.hang != "" {
 		viol("synchronizer-hangs", out.hang)
 	}
+	if out.probeMiss != "" {
+		viol("new-head-notification-not-emitted-before-the-store-path-went-on", out.probeMiss+
+			" — new-head notifications are emitted once per stored block in storage order: by storeTask itself, before the next block is stored")
+	}
+	cr.hits["probe:new-head-in-the-slot-when-the-next-store-began"] += out.probed
 	if out.afterReturn != "" {
 		viol("synchroniser-still-working-after-Run-returned", "after Run returned (context cancelled) the synchroniser still did: "+out.afterReturn+
 			" — Run must wait for its fetchers and verifiers, the caller closes the database next")
@@ -766,6 +773,8 @@ func analyse(sc Scenario, out *outcome, drv *lib.Driver) *caseResult {
 		}
 		if strings.HasPrefix(diff, "driver") || strings.HasPrefix(diff, "impl-init") {
 			cr.fatal = "Impl replay: " + diff
+		} else if strings.HasPrefix(diff, "plugin calls:") {
+			cr.mismatches = append(cr.mismatches, lib.Mismatch{Sig: "plugin-calls-differ-from-model", Input: replay(), Model: diff, Impl: "recorded by the plugin registered with the real synchroniser"})
 		} else if diff != "" {
 			cr.mismatches = append(cr.mismatches, lib.Mismatch{Sig: "impl-replay-differs", Input: replay(), Model: diff, Impl: "observed on the real synchroniser"})
 		}
